@@ -665,7 +665,10 @@ fn trace_line_inner(c: &Case) -> String {
                 ))
             }
             Rec::Op { op, arg, pre } => {
-                valids.push(pending_valid.take().unwrap_or_else(|| "-".to_string()));
+                // the candidate list is recorded for the first 2500 opcodes of a run (comparing it costs the driver a pass
+                // over the whole stack per guard); "~" = beyond the recording limit
+                let v = pending_valid.take();
+                valids.push(if nsteps >= 2500 && v.is_some() { "~".to_string() } else { v.unwrap_or_else(|| "-".to_string()) });
                 if !steps.is_empty() {
                     steps.push(';');
                 }
